@@ -390,7 +390,7 @@ func driftAlphabet() []mw.Op {
 
 func main() {
 	r := ev.Start("C02", ev.ModelChecking)
-	if r.Quick() && r.Budget > 70*time.Second {
+	if r.Quick() && r.Budget == 90*time.Second { // the default; an explicit -budget is respected
 		r.Budget = 70 * time.Second // leave room for the build inside the 90 s quick-tier envelope
 	}
 	scratch := mw.MkScratch("verif-c02")
